@@ -27,6 +27,9 @@
 #ifndef NPRIM
 #define NPRIM 2  // key-set primitives per root-level keyed collection per cycle (nested collections: 1)
 #endif
+#ifndef NPRIM5
+#define NPRIM5 1  // primitives per cycle at the root of the nested TSD<int,TSS<int>> shape
+#endif
 #ifndef NKEYS
 #define NKEYS 2  // concrete key universe {1..NKEYS}
 #endif
@@ -187,7 +190,7 @@ void drive(const TSOutputView &out, DateTime t, bool nested) {
             if (verif_bool("tick")) drive_ts(out, t);
             break;
         case TSTypeKind::TSS: drive_tss(out, t, nested ? 1 : NPRIM); break;
-        case TSTypeKind::TSD: drive_tsd(out, t, nested ? 1 : NPRIM); break;
+        case TSTypeKind::TSD: drive_tsd(out, t, nested ? 1 : (schema->element_ts()->kind == TSTypeKind::TSS ? NPRIM5 : NPRIM)); break;
         case TSTypeKind::TSW: drive_window(out, t); break;
         case TSTypeKind::TSL:
             if (schema->fixed_size() == 0) { drive_dynamic_list(out, t); break; }
